@@ -258,7 +258,7 @@ def step (cfg : Cfg) (s : State) : Event → Option State
         some (updCalls s c (·.phase = .entered) fun y => { y with phase := .left .closedPipe })
       else
         let s1 := x.msgs.foldl (addOne cfg) s
-        some (updCalls s1 c (·.phase = .entered) fun y => { y with phase := if cfg.async then .left .nil else .waiting })
+        some (updCalls s1 c (· == x) fun y => { y with phase := if cfg.async then .left .nil else .waiting })
   | .timer b =>
     if s.awaiters.contains b then
       some { s with
